@@ -662,6 +662,41 @@ impl Interp {
                 let qamt = push_quote_amount(x, *up, ppm);
                 self.whale_trade(pre, v, *up, qamt)
             }
+            Op::PushEdge { v, up, knob } => {
+                let v = self.v_of(*v);
+                let fl = pre.v[v].cfg.fluctuation_limit_ratio.u128();
+                if fl == 0 {
+                    return Act::Skip;
+                }
+                let flppm = mul_div_floor(fl, 1_000_000, d);
+                let x = pre.v[v].state.quote_asset_reserve.u128();
+                // surely beyond the band even if the price has drifted to the other edge within the block
+                let (mut lo, mut hi) = (0u128, push_quote_amount(x, *up, (flppm * 5 / 2 + 1_000).min(990_000)).max(2));
+                let snap = self.w.snapshot();
+                for _ in 0..130 {
+                    if hi - lo <= 1 {
+                        break;
+                    }
+                    let mid = lo + (hi - lo) / 2;
+                    let act = self.whale_trade(pre, v, *up, mid);
+                    let r = self.exec_act(&act);
+                    self.w.restore(&snap);
+                    if r.ok {
+                        lo = mid;
+                    } else {
+                        hi = mid;
+                    }
+                }
+                if lo == 0 {
+                    return Act::Skip;
+                }
+                let amt = match idx(*knob, 5) {
+                    0 | 1 | 2 => lo,
+                    3 => lo.saturating_sub(1).max(1),
+                    _ => lo + 1,
+                };
+                self.whale_trade(pre, v, *up, amt)
+            }
             Op::Squeeze { v, target, knob } => {
                 let v = self.v_of(*v);
                 let target = pick_holder(pre, v, *target, true);
@@ -1058,6 +1093,7 @@ pub fn run_history(case: &HistCase, mon: &mut dyn Monitor, ctx: &Ctx, out: &mut 
     mon.begin(&mut it.w, out);
     let mut trace: Vec<Value> = vec![];
     let mut pre = observe(&it.w);
+    it.w.fmodel.start(&pre);
     for (i, op) in case.ops.iter().enumerate() {
         let act = it.resolve(op, &pre);
         if let Act::Skip = act {
@@ -1073,6 +1109,7 @@ pub fn run_history(case: &HistCase, mon: &mut dyn Monitor, ctx: &Ctx, out: &mut 
         let sender = it.sender_of(&act);
         let res = it.exec_act(&act);
         let post = observe(&it.w);
+        it.w.fmodel.step(&act, &pre, &post, res.ok);
         let effect = match act.subject() {
             Some((v, t)) => classify(&act, &pre.pos[v][t], &post.pos[v][t], res.ok),
             None => Effect::None,
